@@ -40,13 +40,21 @@ def str_consts_compared(f):
     return out
 
 
+def log_append_body(P):
+    """EventLog::append with the private helpers of rip-log it delegates to spliced in (`serialize_frame(event)?`)."""
+    if not hasattr(P, '_log_app'):
+        from ..inline import inline_calls
+        P._log_app = inline_calls(P, P.fn('rip_log::EventLog::append'), lambda body, callee: callee.startswith('rip_log::') and not callee.endswith('::append'), depth=2)
+    return P._log_app
+
+
 def log_writer_calls(P):
     """EventLog::append: every call that is handed the guarded log writer (whatever its name:
     write_all / write / write_fmt / serde_json::to_writer / io::copy), flush excluded.
     returns (append fn, all such calls, those from which the Ok return is reachable)."""
     import re as _re
     from ..core import CheckError
-    app = P.fn('rip_log::EventLog::append')
+    app = log_append_body(P)
     guards = [s.dest['l'] for s in app.calls(r'Mutex::<T>::lock$')]
     guards += [s.dest['l'] for s in app.calls(r'Result::<T, E>::(expect|unwrap)$|unwrap_or_else$') if 'MutexGuard' in app.lty(s.dest['l'])]
     if not guards:
